@@ -28,25 +28,26 @@ PathSets == {{}, {<<"c1", "x", "set">>}, {<<"c1", "x", "set">>, <<"c1", "y", "se
 DefaultSec == [reltype |-> "ga", layered |-> FALSE, internal |-> FALSE, bptype |-> "ga", ctype |-> "production", respin |-> "r0",
                label |-> "none", final |-> FALSE]
 
-VARIABLES nodes, typ, ar, pth, dashed, sec
-vars == <<nodes, typ, ar, pth, dashed, sec>>
+VARIABLES nodes, typ, ar, pth, dashed, dashkid, sec
+vars == <<nodes, typ, ar, pth, dashed, dashkid, sec>>
 \* pth[p] = set of <<category, arch, valueClass>> assigned through the API; valueClass "set" | "empty";
 \* an arch outside ar[p] is a "foreign" assignment
 Init ==
   CASE Slice = "forest" ->
          /\ nodes \in ShapesUpTo(4) /\ typ \in [nodes -> Types]
          /\ ar = [p \in nodes |-> {"x"}] /\ pth = [p \in nodes |-> {}] /\ dashed \in BOOLEAN /\ sec = DefaultSec
+         /\ dashkid \in BOOLEAN /\ (dashkid => dashed /\ Cardinality(nodes) <= 2)      \* the dashed top-level variant has a child "o"
     [] Slice = "arches" ->
          /\ nodes \in ShapesUpTo(3) /\ typ = [p \in nodes |-> IF Len(p) = 1 THEN "variant" ELSE "addon"]
          /\ ar \in [nodes -> (SUBSET Arches) \ {{}}] /\ (\A p \in nodes : Len(p) > 1 => ar[p] \subseteq ar[Parent(p)])
-         /\ pth \in [nodes -> {{}, {<<"c1", "x", "set">>, <<"c1", "y", "set">>, <<"c2", "y", "set">>}}] /\ dashed = FALSE /\ sec = DefaultSec
+         /\ pth \in [nodes -> {{}, {<<"c1", "x", "set">>, <<"c1", "y", "set">>, <<"c2", "y", "set">>}}] /\ dashed = FALSE /\ dashkid = FALSE /\ sec = DefaultSec
     [] Slice = "paths" ->
          /\ nodes \in ShapesUpTo(2) /\ typ = [p \in nodes |-> IF Len(p) = 1 THEN "variant" ELSE "optional"]
          /\ ar \in [nodes -> {{"x"}, {"x", "y"}}] /\ (\A p \in nodes : Len(p) > 1 => ar[p] \subseteq ar[Parent(p)])
-         /\ pth \in [nodes -> PathSets] /\ dashed = FALSE /\ sec = DefaultSec
+         /\ pth \in [nodes -> PathSets] /\ dashed = FALSE /\ dashkid = FALSE /\ sec = DefaultSec
     [] Slice = "sections" ->
          /\ nodes = {<<"A">>} /\ typ = [p \in nodes |-> "variant"] /\ ar = [p \in nodes |-> {"x"}] /\ pth = [p \in nodes |-> {}]
-         /\ dashed = FALSE
+         /\ dashed = FALSE /\ dashkid = FALSE
          /\ sec \in [reltype : RelTypes, layered : BOOLEAN, internal : BOOLEAN, bptype : {"ga", "updates", "eus"}, ctype : CTypes,
                      respin : {"r0", "r7", "rbig"}, label : Labels, final : BOOLEAN]
          /\ (~sec.layered => sec.bptype = "ga") /\ (sec.label = "none" => (sec.reltype \in {"ga", "eus"}))
@@ -70,8 +71,12 @@ VariantDoc(p) == ("id" :> Last(p)) @@ ("uid" :> Join(p)) @@ ("name" :> "$name:" 
 \* the dashed top-level variant ("Server-Tools" with id "ServerTools"), childless
 DashDoc == ("id" :> "$dashid") @@ ("uid" :> "$dashuid") @@ ("name" :> "$name:dash") @@ ("type" :> "variant")
            @@ ("arches" :> Sorted({"x"})) @@ ("paths" :> Empty)
+           @@ (IF dashkid THEN ("variants" :> Sorted({"o"})) ELSE Empty)
+DashKidDoc == ("id" :> "o") @@ ("uid" :> "$dashkiduid") @@ ("name" :> "$name:dashkid") @@ ("type" :> "optional")
+              @@ ("arches" :> Sorted({"x"})) @@ ("paths" :> Empty)
 VariantsDoc == [u \in {Join(p) : p \in nodes} |-> VariantDoc(CHOOSE p \in nodes : Join(p) = u)]
                @@ (IF dashed THEN ("$dashuid" :> DashDoc) ELSE Empty)
+               @@ (IF dashkid THEN ("$dashkiduid" :> DashKidDoc) ELSE Empty)
 ComposeDoc == ("id" :> "$composeid") @@ ("type" :> sec.ctype) @@ ("date" :> "$date") @@ ("respin" :> "$" \o sec.respin)
               @@ (IF sec.label # "none" THEN ("label" :> "$label:" \o sec.label) @@ ("final" :> sec.final) ELSE Empty)
 ReleaseDoc == ("name" :> "$relname") @@ ("short" :> "$relshort") @@ ("version" :> "$relver") @@ ("type" :> sec.reltype)
@@ -83,13 +88,14 @@ Doc == ("header" :> (("type" :> "productmd.composeinfo") @@ ("version" :> "$curr
 \* normalised object the reader must return: final only next to a label; stored paths only
 NormFinal == sec.label # "none" /\ sec.final
 Obj == [nodes |-> {[path |-> p, type |-> typ[p], arches |-> ar[p], paths |-> pth[p], stored |-> Stored(p)] : p \in nodes},
-        dashed |-> dashed, sec |-> sec, normfinal |-> NormFinal]
+        dashed |-> dashed, dashkid |-> dashkid, sec |-> sec, normfinal |-> NormFinal]
 Emit == PrintT("@@" \o ToJson([obj |-> Obj, doc |-> Doc]))
 \* ---- model-level checks on Ser
+ChildUidStr(w, c) == IF w = "$dashuid" THEN "$dashkiduid" ELSE VariantsDoc[w]["uid"] \o "-" \o c
 Tops == {u \in DOMAIN VariantsDoc : ~\E w \in DOMAIN VariantsDoc :
-            "variants" \in DOMAIN VariantsDoc[w] /\ \E c \in VariantsDoc[w]["variants"].sorted : VariantsDoc[w]["uid"] \o "-" \o c = u}
+            "variants" \in DOMAIN VariantsDoc[w] /\ \E c \in VariantsDoc[w]["variants"].sorted : ChildUidStr(w, c) = u}
 TopDetect == Tops = {Join(p) : p \in {q \in nodes : Len(q) = 1}} \cup (IF dashed THEN {"$dashuid"} ELSE {})
-UidOnce   == Cardinality(DOMAIN VariantsDoc) = Cardinality(nodes) + (IF dashed THEN 1 ELSE 0)
+UidOnce   == Cardinality(DOMAIN VariantsDoc) = Cardinality(nodes) + (IF dashed THEN 1 ELSE 0) + (IF dashkid THEN 1 ELSE 0)
 ChildArch == \A p \in nodes : Len(p) > 1 => ar[p] \subseteq ar[Parent(p)]
 FinalOnlyWithLabel == ("final" \in DOMAIN ComposeDoc) <=> ("label" \in DOMAIN ComposeDoc)
 StoredInArches == \A p \in nodes : \A c \in DOMAIN PathsDoc(p) : DOMAIN PathsDoc(p)[c] \subseteq ar[p]
